@@ -575,6 +575,10 @@ struct Exporter {
         if (MD->isVirtual()) J.attribute("virt", true);
         J.attribute("access", (int64_t)MD->getAccess());
       }
+      if (auto *FPT = F->getType()->getAs<FunctionProtoType>()) {
+        // explicit or computed non-throwing specification (noexcept, throw()); dependent specs are not resolved
+        if (!isUnresolvedExceptionSpec(FPT->getExceptionSpecType()) && FPT->isNothrow()) J.attribute("nothrow", true);
+      }
       if (isa<CXXConstructorDecl>(F)) J.attribute("fk", "ctor");
       else if (isa<CXXDestructorDecl>(F)) J.attribute("fk", "dtor");
       else if (isa<CXXConversionDecl>(F)) J.attribute("fk", "conv");
